@@ -66,6 +66,8 @@ def compare(pid, case, mline, iline):
             a, b = norm(m[mk]), norm(i.get(route, ""))
             if key(b) != key(doc):
                 diffs.append((route + "-vs-documented", doc, b))       # the property fails on this input
+            if "ILLFORMED" in a:
+                continue        # the model regenerated from this tree cannot run its own library path (a table obligation fails): the documented meaning decides
             if key(a) != key(b):
                 diffs.append((route + "-vs-model", a, b))              # the model misrepresents the code
     return diffs
@@ -180,7 +182,7 @@ def run(pid, args):
         for k, c in enumerate(cases):
             c.idx = k
     mlines = corr.run_model(model_exe, "expr", [c.model_line() for c in cases])
-    usable = [(c, m) for c, m in zip(cases, mlines) if m.startswith("wt=true") and "ILLFORMED" not in m]
+    usable = [(c, m) for c, m in zip(cases, mlines) if m.startswith("wt=true") and "doc=ILLFORMED" not in m]
     workdir = os.path.join(BUILD, "expr-%s-%d" % (pid, os.getpid()))
     try:
         res, err = build_and_run([c for c, _ in usable], workdir)
